@@ -17,14 +17,16 @@ import (
 // mode cart: memory.New(rom, ...) on synthetic images, then Mapper.Write / Mapper.Read / DumpRAM.
 //
 // ops:  reset <type> <romsize> <ramsize> [<len>]   (hex) build an image of <len> bytes (default
-//                                                   0x4000*(2<<romsize)) whose byte at offset o of
-//                                                   16 KiB page b is cartSig(b,o), header bytes
-//                                                   0147/0148/0149 = type/romsize/ramsize, and
-//                                                   construct the memory       -> ok | fail
-//       w <addr4> <val2>                            Mapper.Write                -> ok | crash
-//       r <addr4>                                   Mapper.Read                 -> <val2> | crash
-//       win                                         reads of 0000 0001 3fff 4000 4001 7fff a000 a001 bfff
-//       dump                                        DumpRAM: <len8> <fnv1a-32 8>
+//
+//	                                            0x4000*(2<<romsize)) whose byte at offset o of
+//	                                            16 KiB page b is cartSig(b,o), header bytes
+//	                                            0147/0148/0149 = type/romsize/ramsize, and
+//	                                            construct the memory       -> ok | fail
+//	w <addr4> <val2>                            Mapper.Write                -> ok | crash
+//	r <addr4>                                   Mapper.Read                 -> <val2> | crash
+//	win                                         reads of 0000 0001 3fff 4000 4001 7fff a000 a001 bfff
+//	dump                                        DumpRAM: <len8> <fnv1a-32 8>
+//
 // Every output is spec-determined (ROM window bytes: C08; RAM window and dump: C09; crash/fail: C11).
 func init() { modes["cart"] = modeFn{gen: cartGen, replay: cartReplay} }
 
@@ -322,22 +324,30 @@ func cartGen(c *ctx) {
 	for _, t := range famTypes {
 		for rs := 0; rs <= 8; rs++ {
 			for _, ras := range ramFor(rs) {
-				for pi, pre := range prestates {
-					if r.reset(t, rs, ras, -1) != "ok" {
-						continue
-					}
-					for _, p := range pre {
-						r.w(p[0], p[1])
-					}
-					r.win("pre")
-					_ = pi
-					for _, a := range ctlAddrs {
+				for _, pre := range prestates {
+					ok := true
+					for ai, a := range ctlAddrs {
+						// one reset per control address keeps every replay below a few hundred operations
+						// (the 4/8 MiB images are rebuilt only once per pre-state)
+						if rs < 7 || ai == 0 {
+							if r.reset(t, rs, ras, -1) != "ok" {
+								ok = false
+								break
+							}
+							for _, p := range pre {
+								r.w(p[0], p[1])
+							}
+							r.win("pre")
+						}
 						for v := 0; v < 256; v++ {
 							r.w(a, v)
 							r.win(cartRegion(a))
 						}
+						r.do("dump")
 					}
-					r.do("dump")
+					if !ok {
+						break
+					}
 				}
 			}
 		}
